@@ -46,6 +46,11 @@ type caseRec struct {
 	// refinement
 	Variant int   `json:"variant"`
 	Seed    int64 `json:"seed"`
+	// boundary refinement: sizes are chosen so that the first frame the scan has to resynchronise to starts
+	// exactly Boundary+Delta bytes after the end of the last good frame, and the file goes on for at least
+	// two more Boundary lengths (0: ordinary refinement)
+	Boundary int `json:"boundary"`
+	Delta    int `json:"delta"`
 }
 
 type input struct {
@@ -68,22 +73,24 @@ type divergence struct {
 }
 
 type output struct {
-	Cases       int            `json:"cases"`        // abstract cases executed
-	Files       int            `json:"files"`        // concrete damaged files opened by the engine
-	Opens       int            `json:"opens"`        // engine.Open calls
-	RTChecks    int            `json:"rt_checks"`    // ParseCommand(FormatCommand) comparisons
-	FrameChecks int            `json:"frame_checks"` // ReadFrame(WriteFrame) comparisons
-	Refused     int            `json:"refused"`
-	Truncated   int            `json:"truncated"`
-	Degenerate  int            `json:"degenerate"` // concrete damage that changed nothing the abstract one changes: skipped
-	EmptyClass  int            `json:"empty_class"`
-	MaxAllocMB  int            `json:"max_alloc_mb"`
-	Amplified   int            `json:"amplified"`  // Opens that allocated far more than the file could justify
-	FieldBits   map[string]int `json:"field_bits"` // field:bit -> files
-	Kinds       map[string]int `json:"kinds"`      // damage kind -> files
-	Divergences []divergence   `json:"divergences"`
-	Errors      []string       `json:"errors"`
-	Done        []string       `json:"done"` // ids of the cases fully executed (a crash leaves the rest to a new process)
+	Cases        int            `json:"cases"`        // abstract cases executed
+	Files        int            `json:"files"`        // concrete damaged files opened by the engine
+	Opens        int            `json:"opens"`        // engine.Open calls
+	RTChecks     int            `json:"rt_checks"`    // ParseCommand(FormatCommand) comparisons
+	FrameChecks  int            `json:"frame_checks"` // ReadFrame(WriteFrame) comparisons
+	Refused      int            `json:"refused"`
+	Truncated    int            `json:"truncated"`
+	Degenerate   int            `json:"degenerate"` // concrete damage that changed nothing the abstract one changes: skipped
+	EmptyClass   int            `json:"empty_class"`
+	MaxAllocMB   int            `json:"max_alloc_mb"`
+	Amplified    int            `json:"amplified"`     // Opens that allocated far more than the file could justify
+	BoundaryHits map[string]int `json:"boundary_hits"` // "boundary:delta" -> files opened
+	BoundaryNA   int            `json:"boundary_na"`   // boundary refinements that could not be realised for the case
+	FieldBits    map[string]int `json:"field_bits"`    // field:bit -> files
+	Kinds        map[string]int `json:"kinds"`         // damage kind -> files
+	Divergences  []divergence   `json:"divergences"`
+	Errors       []string       `json:"errors"`
+	Done         []string       `json:"done"` // ids of the cases fully executed (a crash leaves the rest to a new process)
 }
 
 func main() {
@@ -122,7 +129,7 @@ func main() {
 	// caller sets RLIMIT_AS so that a runaway request kills this process instead of the machine
 	debug.SetMemoryLimit(1536 << 20)
 
-	r := &runner{inp: &inp, res: &output{FieldBits: map[string]int{}, Kinds: map[string]int{}}, outPath: *out}
+	r := &runner{inp: &inp, res: &output{FieldBits: map[string]int{}, Kinds: map[string]int{}, BoundaryHits: map[string]int{}}, outPath: *out}
 	r.alpha = map[int]alphaRec{}
 	for _, a := range inp.Alpha {
 		r.alpha[a.I] = a
@@ -157,6 +164,9 @@ type runner struct {
 	alpha   map[int]alphaRec
 	outPath string
 	fatal   bool
+	// overrides of the boundary refinement: run length per symbol, length of a long inserted garbage
+	sizes  map[int]int
+	insLen int
 }
 
 func (r *runner) flush() {
